@@ -18,7 +18,7 @@ pub fn prop() -> Prop {
 fn spec() -> Spec {
     Spec {
         kinds: vec![Kind { name: "ik_complete", quick: 800_000, thorough: 20_000_000, serial: false }],
-        rule: "each case = generated non-degenerate 6-DOF robot (industrial, bundled, zero-heavy, negative lengths; 64 sign patterns; offsets) x joint vector q (uniform, round multiples of 15 degrees, or placed close to the singularity margins); the pose comes from the reference chain or the library's forward(), half of the time written with the negated quaternion; inverse(FK_ref(q)) must contain q mod 2pi, the wrist-flipped twin of every answer, no duplicates, and re-solving the pose of every answer must give the same set; cases with a singularity measure below the margin are inconclusive(near-singular); non-trivial = in-domain case with >= 1 answer; distinct = hash(robot, q)",
+        rule: "each case = generated non-degenerate 6-DOF robot (industrial, bundled, zero-heavy, negative lengths; 64 sign patterns; offsets) x joint vector q (uniform, round multiples of 15 degrees, or placed close to the singularity margins); the pose comes from the reference chain or the library's forward(), half of the time written with the negated quaternion; inverse(FK_ref(q)) must contain q mod 2pi, the wrist-flipped twin of every answer, no duplicates, and re-solving the pose of every answer must give the same set; cases with a singularity measure below the margin are inconclusive(near-singular); non-trivial = in-domain case with >= 1 answer; distinct = hash(robot, q) Workload additions: solvers built through either constructor; a third of the robots asked through Tool / Base / Frame stacks of depth 1-2 (incl. tiny rotations, identity / rotation-only / translation-only transforms).",
         assumptions: vec![
             "domain margins: |sin t5|, |sin(t3+psi3)| and wrist-centre distance from axis 1 / reach all >= 1e-3 (refmodel measures)",
             "match tolerance modulo 2pi: 1e-6 rad per joint when all margins >= 1e-2, else 1e-4",
@@ -56,6 +56,14 @@ fn run_case(_kind: &str, idx: u64, rng: &mut Rng, mon: &mut Mon, _tier: Tier) {
     // statements about joint vectors and must survive the rigid transforms on either side
     let layers: Vec<crate::props::stack::Layer> = if rng.bool(0.33) { crate::props::stack::gen_stack(rng, 1 + rng.clone().usize(2), false, &["Tool", "Base", "Frame"]) } else { vec![] };
     let _ = rng.next_u64();
+    // a tenth: the classic parallelogram (J2 drives J3; integer and non-integer scaling) innermost - the wrist
+    // joints, and so the twin relation, are not touched by it
+    let mut layers = layers;
+    if rng.bool(0.1) {
+        layers.insert(0, crate::props::stack::Layer::Para { driven: 1, coupled: 2, scaling: *rng.pick(&[1.0, 1.0, 0.5, -1.5, 2.0, 0.75]) });
+        mon.count("robots_behind_a_parallelogram");
+    }
+    let layers = layers;
     if !layers.is_empty() {
         mon.count("robots_behind_a_wrapper_stack");
     }
@@ -80,7 +88,11 @@ fn run_case(_kind: &str, idx: u64, rng: &mut Rng, mon: &mut Mon, _tier: Tier) {
             }
         }
     }
-    let mq = min_measure(&rp, &q);
+    let inner_of = |v: &[f64; 6]| crate::props::stack::ref_inner_joints(&layers, v);
+    // configurations are compared in the wrapped robot's coordinates: behind a coupling with non-integer scaling a
+    // whole turn of the driven joint is not a whole turn of the coupled one, although the posture is the same
+    let same = |a: &[f64; 6], b: &[f64; 6], tol: f64| same_mod(&inner_of(a), &inner_of(b), tol);
+    let mq = min_measure(&rp, &inner_of(&q));
     mon.count(&format!("robot_class.{}", robot.class));
     if !(mq >= MARGIN) {
         mon.inconclusive("near-singular");
@@ -105,7 +117,7 @@ fn run_case(_kind: &str, idx: u64, rng: &mut Rng, mon: &mut Mon, _tier: Tier) {
     let detail = |what: &str, extra: serde_json::Value| json!({"robot": robot_json(&robot), "stack": crate::props::stack::stack_json(&layers), "q": jf(&q), "min_margin": mq, "pose_source": pose_src, "clause": what, "answers": sols.iter().map(|s| jf(s)).collect::<Vec<_>>(), "extra": extra});
 
     // 1. completeness
-    if !sols.iter().any(|s| same_mod(s, &q, tol)) {
+    if !sols.iter().any(|s| same(s, &q, tol)) {
         mon.violation("missing-generating-configuration", "inverse(FK(q)) does not contain q modulo 2pi", detail("complete", json!({})));
     } else {
         mon.held();
@@ -118,7 +130,7 @@ fn run_case(_kind: &str, idx: u64, rng: &mut Rng, mon: &mut Mon, _tier: Tier) {
     let mut dup = false;
     for a in 0..sols.len() {
         for b in (a + 1)..sols.len() {
-            if same_mod(&sols[a], &sols[b], 1e-7) {
+            if same(&sols[a], &sols[b], 1e-7) {
                 dup = true;
             }
         }
@@ -130,13 +142,13 @@ fn run_case(_kind: &str, idx: u64, rng: &mut Rng, mon: &mut Mon, _tier: Tier) {
     }
     // 2. wrist-flipped twin of each answer
     for s in &sols {
-        let ms = min_measure(&rp, s);
+        let ms = min_measure(&rp, &inner_of(s));
         if ms < 1e-2 {
             mon.inconclusive("twin:answer-near-singular");
             continue;
         }
         let tw = twin(&rp, s);
-        if !sols.iter().any(|o| same_mod(o, &tw, 1e-6)) {
+        if !sols.iter().any(|o| same(o, &tw, 1e-6)) {
             mon.violation("missing-wrist-twin", "wrist-flipped twin (J4+pi,-J5,J6-pi) of an answer is not in the answer set", detail("twin", json!({"answer": jf(s), "twin": jf(&tw)})));
         } else {
             mon.held();
@@ -148,18 +160,18 @@ fn run_case(_kind: &str, idx: u64, rng: &mut Rng, mon: &mut Mon, _tier: Tier) {
         let again = kin.inverse(&pose_s);
         let mut diff: Vec<[f64; 6]> = vec![];
         for a in &sols {
-            if !again.iter().any(|b| same_mod(a, b, 1e-4)) {
+            if !again.iter().any(|b| same(a, b, 1e-4)) {
                 diff.push(*a);
             }
         }
         for b in &again {
-            if !sols.iter().any(|a| same_mod(a, b, 1e-4)) {
+            if !sols.iter().any(|a| same(a, b, 1e-4)) {
                 diff.push(*b);
             }
         }
         if diff.is_empty() && again.len() == sols.len() {
             mon.held();
-        } else if diff.iter().any(|d| min_measure(&rp, d) < 1e-2) || diff.is_empty() {
+        } else if diff.iter().any(|d| min_measure(&rp, &inner_of(d)) < 1e-2) || diff.is_empty() {
             mon.inconclusive("closure:differing-branch-near-singular");
         } else {
             mon.violation("answer-set-not-closed", "solving the pose of a returned solution gives a different answer set", detail("closed", json!({"answer": jf(s), "size_again": again.len(), "differing": diff.iter().map(|d| jf(d)).collect::<Vec<_>>()})));
